@@ -7,17 +7,12 @@ import (
 	_ "crypto/sha256"
 	_ "crypto/sha512"
 
-	"verifharness/common"
 	"verifharness/copyh"
 )
 
 func main() {
-	run := common.Start("C01")
-	run.Rule = "distinct (graph, root, initial destination, mode, store pairing, K, MapRoot/platform) whose reachable part has >= 3 nodes and meets an already-present node, a shared node, a duplicate or foreign successor or a subject link"
-	b := copyh.Budget{Main: 260, Contention: 30, Twin: 30, CbFail: 20, Reps: 0}
-	if run.Thorough() {
-		b = copyh.Budget{Main: 3000, Contention: 400, Twin: 200, CbFail: 200, Reps: 4}
-	}
-	copyh.Drive(run, "C01", b)
-	run.Finish()
+	copyh.Main("C01",
+		"distinct (graph, root, initial destination, mode, store pairing, K, MapRoot/platform) whose reachable part has >= 3 nodes and meets an already-present node, a shared node, a duplicate or foreign successor or a subject link",
+		copyh.Budget{Main: 260, Contention: 30, Twin: 30, CbFail: 20, Reps: 0},
+		copyh.Budget{Main: 3000, Contention: 400, Twin: 200, CbFail: 200, Reps: 4})
 }
